@@ -605,6 +605,14 @@ def get_current_registers(commands: List[T_Cmd]) -> Set[str]:
         if not isinstance(command, ICmd):
             continue
         for op in command.operands:
-            if isinstance(op, Register):
-                current_registers.add(str(op))
+            # registers can also occur as indices of array entries and slices
+            if isinstance(op, ArrayEntry):
+                values = [op.index]
+            elif isinstance(op, ArraySlice):
+                values = [op.start, op.stop]
+            else:
+                values = [op]
+            for value in values:
+                if isinstance(value, Register):
+                    current_registers.add(str(value))
     return current_registers
